@@ -453,6 +453,8 @@ func (g *G) genTruncUnframed(id string) *History {
 	body := "0123456789abcdefghijklmnopqrstuvwxyz"
 	h.Ops = append(h.Ops, Op{Op: "req", AtNs: 0, Method: "GET", URL: url,
 		Replies: []Reply{{Status: 200, BodyFail: -1, Body: body, NoCL: g.chance(0.8), Proto: pick(g, "", "HTTP/1.0"),
+			// the same unframed message as a hand-written upstream may present it
+			ZeroLen: g.chance(0.3), TEIdentity: g.chance(0.3),
 			Hdr: Hdr{{"Date", dateAt(0, 0)}, {"Cache-Control", "max-age=600"}}}}})
 	h.Ops = append(h.Ops, Op{Op: "req", AtNs: 10 * sec, Method: "GET", URL: url,
 		Faults:  []Fault{{Stream: "fg", Idx: 1, Kind: "trunc", Bytes: pick(g, "-1", "-3", "-5", "-12", "-20", "-30")}},
